@@ -287,6 +287,56 @@ def _anchor_point(pt):
     return core.result(viol, obs="mel1000", sample=dict(kind=kind))
 
 
+OPT_MODES = (["-O"], ["-OO"], ["env:PYTHONOPTIMIZE=1"], [])
+
+
+def _anchor_interpreter_point(mode):
+    """the octave anchor in a SEPARATE interpreter started in an optimised mode (python -O / -OO /
+    PYTHONOPTIMIZE=1, where `assert` statements and `if __debug__` blocks are compiled away): the
+    refusal of a non-positive low_hz is documented behaviour, not a debugging aid"""
+    import json
+    import subprocess
+    import sys
+
+    prog = (
+        "import json, sys\n"
+        "from pydrobert.speech import scales\n"
+        "out = []\n"
+        "for v in (0.0, -0.0, -1.0, -20.0, 0, -440, float('-inf'), 1.0, 20.0):\n"
+        "    try:\n"
+        "        scales.OctaveScaling(v); out.append([repr(v), 'ok'])\n"
+        "    except Exception as e:\n"
+        "        out.append([repr(v), type(e).__name__])\n"
+        "print(json.dumps(dict(optimize=sys.flags.optimize, out=out)))\n")
+    import os
+    env = dict(os.environ, PYTHONPATH=os.path.join(core.REPO, "src"), PYTHONDONTWRITEBYTECODE="1")
+    args = [sys.executable]
+    for m in mode:
+        if m.startswith("env:"):
+            k, v = m[4:].split("=")
+            env[k] = v
+        else:
+            args.append(m)
+    p = subprocess.run(args + ["-c", prog], env=env, capture_output=True, text=True, timeout=120)
+    case = dict(kind="interpreter", mode=mode)
+    if p.returncode != 0:
+        raise core.HarnessError("child interpreter failed: %s" % p.stderr[-300:])
+    doc = json.loads(p.stdout.strip().splitlines()[-1])
+    viol = []
+    for v, res in doc["out"]:
+        positive = float(v) > 0
+        if positive and res != "ok":
+            viol.append(core.violation(dict(what="octave_low_rejected", exc=res, optimized=bool(mode)),
+                                       "python %s: OctaveScaling(%s) raised %s" % (" ".join(mode), v, res), case))
+        if not positive and res != "ValueError":
+            viol.append(core.violation(
+                dict(what="octave_low_accepted", sign="zero" if float(v) == 0 else "negative", optimized=bool(mode)),
+                "python %s (sys.flags.optimize=%d): OctaveScaling(low_hz=%s): expected ValueError, got %s" % (
+                    " ".join(mode), doc["optimize"], v, res), case))
+            break
+    return core.result(viol, obs=[doc["optimize"], len(viol) == 0], sample=case)
+
+
 # ---------------------------------------------------------------- sub-checks
 
 
@@ -405,12 +455,17 @@ def _history_points(tier):
 
 # ---------------------------------------------------------------- argument types
 
-INT_VALUES = (0, 1, 2, 3, 5, 19, 20, 21, 22, 24, 25, 100, 1000, 4000)
+INT_VALUES = (0, 1, 2, 3, 5, 7, 8, 15, 16, 17, 19, 20, 21, 22, 24, 25, 100, 127, 128, 255, 256, 1000, 4000, 30807, 30808,
+              32767, 32768, 63576, 65000, 65535, 65536, 99999)
+INT_TYPES = (("int", int), ("int8", np.int8), ("uint8", np.uint8), ("int16", np.int16), ("uint16", np.uint16),
+             ("int32", np.int32), ("uint32", np.uint32), ("int64", np.int64), ("uint64", np.uint64),
+             ("float64_0d", np.float64))
 
 
 def _argtype_point(cfg):
-    """the same VALUE passed as a Python int, numpy int32 / int64, numpy float32-exact float and a
-    Python float must give the same result (to 1e-12): whole Hz / whole Bark are ordinary arguments"""
+    """the same VALUE passed as a Python int, as every numpy integer type that can hold it (8..64 bit,
+    signed and unsigned: values up to the type's maximum) and as a numpy float64 scalar must give the same
+    result as a Python float (to 1e-12): whole Hz / whole Bark are ordinary arguments"""
     obj = build(cfg)
     viol = []
     evals = 0
@@ -424,8 +479,10 @@ def _argtype_point(cfg):
             ref_r = computers.call(fn, float(v))
             if ref_r[0] != "ok" or not np.isfinite(ref_r[1]):
                 continue
-            for kind, arg in (("int", int(v)), ("int32", np.int32(v)), ("int64", np.int64(v)),
-                              ("float64_0d", np.float64(v))):
+            for kind, typ in INT_TYPES:
+                if kind[0] in "iu" and kind != "int" and not (np.iinfo(typ).min <= v <= np.iinfo(typ).max):
+                    continue  # the value does not exist in that type
+                arg = typ(v)
                 evals += 1
                 r = computers.call(fn, arg)
                 ok = r[0] == "ok" and abs(float(r[1]) - float(ref_r[1])) <= 1e-12 * max(1.0, abs(float(ref_r[1])))
@@ -512,7 +569,7 @@ def subchecks(tier, seed):
             "straddle the break", replay=_breaks_replay, serial=True),
         core.SubCheck(
             "argument_types", cfgs, _argtype_point,
-            "whole-number arguments passed as Python int / numpy int32 / int64 / numpy float64 scalar, both "
+            "whole-number arguments (incl. the limits of the narrow types) passed as Python int / every numpy integer type that holds the value / numpy float64 scalar, both "
             "directions, every scale configuration: same result as with a Python float (1e-12)",
             replay=lambda case: _argtype_point(case["cfg"])),
         core.SubCheck(
@@ -528,6 +585,11 @@ def subchecks(tier, seed):
             "spellings) passed as a frequency and as a scale value in every order on one and two "
             "instances; every value vs the closed form for the object's current parameters",
             replay=lambda case: _history_point(case["ops"])),
+        core.SubCheck(
+            "anchors_optimized", [list(m) for m in OPT_MODES], _anchor_interpreter_point,
+            "the octave anchor in separate interpreters started with -O, -OO, PYTHONOPTIMIZE=1 (and none): "
+            "non-positive low_hz raises ValueError, positive is accepted",
+            replay=lambda case: _anchor_interpreter_point(case["mode"])),
         core.SubCheck(
             "anchors", anchors, _anchor_point,
             "OctaveScaling(low_hz <= 0) raises ValueError and positive low_hz is accepted; "
